@@ -136,7 +136,7 @@ def execute(prog):
                              lu.sigdecode_strings),
         "der_canonize": (lu.sigencode_der_canonize, lu.sigdecode_der),
     }
-    real_os = lu.os
+    real_os = getattr(lu, "os", None)
 
     def fail(oracle, site, msg, detail=None):
         raise core.Violation(core.violation(ID, oracle, site, msg, detail))
@@ -180,7 +180,8 @@ def execute(prog):
                 digest = None
                 allow = True
                 try:
-                    if dev is not None and it["nonce"] == "urandom":
+                    if dev is not None and it["nonce"] == "urandom" \
+                            and real_os is not None:
                         lu.os = _OS(real_os, dev)
                     try:
                         if entry == "sign":
@@ -210,7 +211,8 @@ def execute(prog):
                             r_, s_ = sk.sign_number(number, **kw)
                             sig = se(r_, s_, n)
                     finally:
-                        lu.os = real_os
+                        if real_os is not None:
+                            lu.os = real_os
                 except RSZeroError:
                     core.bump(out["probes"], "rs_zero")
                     continue
@@ -288,7 +290,8 @@ def execute(prog):
         except core.Violation as v:
             out["violation"] = v.v
         finally:
-            lu.os = real_os
+            if real_os is not None:
+                lu.os = real_os
     out["steps"] = out["ops"]
     out["digest"] = core.digest_of(prog)
     return out
